@@ -9,3 +9,5 @@ size_t strlen(const char *s);
 int strcmp(const char *a, const char *b);
 int strncmp(const char *a, const char *b, size_t n);
 char *strncpy(char *d, const char *s, size_t n);
+char *strchr(const char *s, int c);
+char *strcpy(char *d, const char *s);
